@@ -1045,7 +1045,7 @@ def run(ctx):
         pure = list(dict.fromkeys(url_cases(ctx) + fa_cases(ctx)))
         g = Gen(ctx)
         gate_cases(g)
-        history_cases(g, 12 if quick else 400, 30 if quick else 45)
+        history_cases(g, 12 if quick else 400, 40 if quick else 45)
         # USER 1 must come before the FA lines (they authenticate as user 1)
         lines = ["USER 1"] + pure + g.lines[1:]
     rc, impl, err = run_impl(ctx, lines)
